@@ -427,6 +427,17 @@ example : EffDom 16 demoFamily demoSlots demoEffClasses[0].links demoEffect := b
   refine ⟨⟨rfl, by intro lv hlv; simp [demoEffClasses, demoEffect] at hlv; rcases hlv with rfl | rfl | rfl | rfl <;> simp [isPlain]⟩, rfl, rfl, ⟨some 28, none, rfl, rfl, by decide⟩, ?_⟩
   exact ⟨rfl, 3, 5, rfl, rfl, by decide, by decide⟩
 example : effToVal 16 demoSlots demoEffect = .strct [.int 28, .none, .int 196613, .int (-1)] := by rfl
+example : ∃ s', commitObj demoEffClasses 1 0 [] (effToVal 16 demoSlots demoEffect) demoEffSecs = .ok s' := ⟨_, rfl⟩
+/-- the demo effect, saved and re-loaded through the engine, is the demo effect (`effect_roundtrip` applied) -/
+example (s' : Sections) (h : commitObj demoEffClasses 1 0 [] (effToVal 16 demoSlots demoEffect) demoEffSecs = .ok s') :
+    (constructObj demoEffClasses 1 0 [] s').toOption.bind (effOfVal 16 demoFamily demoSlots) = some demoEffect :=
+  effect_roundtrip 16 demoFamily demoSlots (by decide) demoEffClasses 0 0 [] demoEffClasses[0] rfl (by decide) (by decide)
+    (by decide) demoEffect
+    (by
+      refine ⟨⟨rfl, by intro lv hlv; simp [demoEffClasses, demoEffect] at hlv; rcases hlv with rfl | rfl | rfl | rfl <;> simp [isPlain]⟩, rfl, rfl,
+        ⟨some 28, none, rfl, rfl, by decide⟩, ?_⟩
+      exact ⟨rfl, 3, 5, rfl, rfl, by decide, by decide⟩)
+    demoEffSecs s' h
 
 /-! ### the per-player lists of `PlayerManager` -/
 section players
